@@ -196,6 +196,64 @@ def arg_is(e, field):
     return e[0] == 'field' and e[2] == field and e[1][0] == 'param'
 
 
+def _output_by_cases(f, which):
+    """prefix / sub written with explicit comparisons: evaluated over the three orderings of (self, o)"""
+    A_, B_ = ('field', ('param', f.local_name(1), 1), '0'), ('field', ('param', f.local_name(2), 2), '0')
+    import operator as _op
+    OPS = {'Lt': _op.lt, 'Le': _op.le, 'Gt': _op.gt, 'Ge': _op.ge, 'Eq': _op.eq, 'Ne': _op.ne}
+    paths = list(explore(f, max_visits=1))
+    for (a, b) in ((1, 2), (2, 2), (2, 1)):
+        hit = []
+        for p in paths:
+            good = True
+            for d in p.decisions:
+                e, val = d[2], d[3]
+                if e[0] == 'bin' and e[1] in OPS and {e[2], e[3]} == {A_, B_} and val in (0, 1):
+                    x, y = (a, b) if e[2] == A_ else (b, a)
+                    if bool(OPS[e[1]](x, y)) != bool(val):
+                        good = False
+                        break
+                elif e[0] == 'field' and e[2] == '1' and e[1][0] == 'bin' and e[1][1].endswith('WithOverflow'):
+                    continue          # the overflow flag of the subtraction itself (unreachable where guarded)
+                else:
+                    return False
+            if good:
+                hit.append(p)
+        if not hit:
+            return False
+        for p in hit:
+            if which == 'sub':
+                if a < b:
+                    if p.end == 'return':
+                        return False
+                else:
+                    if p.end != 'return':
+                        if any(d[2][0] == 'field' and d[2][2] == '1' for d in p.decisions):
+                            continue
+                        return False
+                    rv = p.ret()
+                    v = rv[2][0][1] if rv[0] == 'agg' and rv[2] else None
+                    while v is not None and v[0] == 'field' and v[2] == '0' and v[1][0] == 'bin' and v[1][1].endswith('WithOverflow'):
+                        v = ('bin', v[1][1][:-len('WithOverflow')], v[1][2], v[1][3])
+                    if not (v is not None and v[0] == 'bin' and v[1] == 'Sub' and v[2] == A_ and v[3] == B_):
+                        return False
+            else:
+                if p.end != 'return':
+                    return False
+                rv = p.ret()
+                src = None
+                if rv[0] == 'param':
+                    src = rv[2]
+                elif rv[0] == 'agg' and rv[2] and rv[2][0][1] in (A_, B_):
+                    src = 1 if rv[2][0][1] == A_ else 2
+                if src is None:
+                    return False
+                smaller = {1} if a < b else ({2} if a > b else {1, 2})
+                if src not in smaller:
+                    return False
+    return True
+
+
 def r01_5(ctx, A):
     R = ctx.rule('R01.5', 'output-prefix algebra of the builder and the Output arithmetic', floor=12)
     lib = ctx.lib
@@ -223,6 +281,8 @@ def r01_5(ctx, A):
             ok = len(rs) == 1 and bool(pred(rs[0]))
         except (IndexError, TypeError):
             ok = False
+        if not ok and name.rsplit('::', 1)[-1] in ('prefix', 'sub'):
+            ok = _output_by_cases(f, name.rsplit('::', 1)[-1])
         ctx.check(R, ok, 'output:' + name.rsplit('::', 1)[-1], 'Output::%s is not %s: %s' % (name.rsplit('::', 1)[-1], {'cat': 'a + b', 'prefix': 'min(a, b)', 'sub': 'a - b (checked)', 'is_zero': 'a == 0', 'value': 'the wrapped integer', 'new': 'a wrapper', 'zero': '0'}[name.rsplit('::', 1)[-1]], [fmt(r)[:80] for r in rs]), fn=f)
     # common prefix with outputs
     f = lib.fn('raw::build::UnfinishedNodes::find_common_prefix_and_set_output')
